@@ -123,9 +123,21 @@ pub fn execute(scratch: &mut Scratch, case: &Case) -> Vec<Vec<RunResult>> {
             None => crate::run::run_build(scratch, &case.worlds[b.world], b),
         };
         results.push(r);
+        // Heartbeat for the supervisor's watchdog: the wall-clock cap is per build, so a case
+        // with hundreds of builds on a busy machine is not mistaken for a hang.
+        if HEARTBEAT.load(std::sync::atomic::Ordering::Relaxed) {
+            use std::io::Write;
+            let out = std::io::stdout();
+            let mut out = out.lock();
+            let _ = writeln!(out, "P");
+            let _ = out.flush();
+        }
     }
     results
 }
+
+/// Set by worker processes; other users of `execute` (replay, minimiser) stay silent.
+pub static HEARTBEAT: std::sync::atomic::AtomicBool = std::sync::atomic::AtomicBool::new(false);
 
 /// Fills the generic part of a report from the results.
 pub fn measure(case: &Case, results: &[Vec<RunResult>], report: &mut CaseReport) {
